@@ -125,6 +125,12 @@ def main(argv: list[str]) -> int:
             small = core.shrink_case(module, kind, case, sig, shrink_budget)
         except Exception:  # noqa: BLE001
             small = case
+        if small != case:
+            s2, m2 = core.signature_and_message(module, kind, small)
+            if s2 == sig:
+                msg = m2
+            else:
+                small = case
         path = write_replay(prop, sig, kind, small, case, msg)
         violations.append((sig, path, msg, fail_counts[sig]))
 
@@ -198,7 +204,7 @@ def do_replay(module, path: str) -> int:
     with open(path) as fh:
         rp = json.load(fh)
     prop = module.PROPERTY
-    sig = core._signature_of(module, rp["kind"], rp["case"])
+    sig, msg = core.signature_and_message(module, rp["kind"], rp["case"])
     if sig is None:
         print(f"replay {path}: case passes (no violation)")
         return 0
@@ -207,7 +213,7 @@ def do_replay(module, path: str) -> int:
         print(f"KNOWN-FINDING: property={prop} signature={sig}")
         return 0
     print(f"VIOLATION property={prop} replay={path}")
-    print(f"  signature={sig}")
+    print(f"  signature={sig}\n  {msg[:600]}")
     return 1
 
 
